@@ -758,7 +758,33 @@ fn run_persist(seed: u64, unique: bool, text: bool, bucket: usize, compress: i32
             BOp::Reload => {
                 // clean restart from storage without flushing: committed snapshot
                 let st2 = storage_for(&store, bucket, compress).map_err(|e| violation!("c10.setup", "storage connect failed: {e}"))?;
-                b = block(BTree::bootstrap("f".to_string(), &ft, st2)).map_err(|e| violation!("c10.load-error", "op#{i}: bootstrap failed: {e:?}"))?;
+                // two reloads in three meet one failing backend read (a transient
+                // error, not NotFound): the bootstrap may refuse - and must then get
+                // through on the next, fault-free attempt - but it must not come up
+                // with part of what the last flush committed (checked right below)
+                let k = simcore::rng::derive(seed ^ (i as u64) << 20, "reload-read-fault") % 30;
+                let fired0: u64 = sim.fired().values().sum();
+                if k < 20 {
+                    sim.set_faults(vec![simcore::FaultSpec { site: simcore::Site::Call(sim.calls() + k), kind: simcore::FaultKind::FailBefore }]);
+                }
+                let r = block(BTree::bootstrap("f".to_string(), &ft, st2));
+                let fired = sim.fired().values().sum::<u64>() > fired0;
+                sim.clear_faults();
+                b = match r {
+                    Ok(b2) => {
+                        if fired {
+                            rep.probe("bootstrap_survived_a_read_fault", 1);
+                        }
+                        b2
+                    }
+                    Err(_) if fired => {
+                        rep.probe("bootstrap_refused_on_read_fault", 1);
+                        rep.fire("read_error_in_bootstrap", 1);
+                        let st3 = storage_for(&store, bucket, compress).map_err(|e| violation!("c10.setup", "storage connect failed: {e}"))?;
+                        block(BTree::bootstrap("f".to_string(), &ft, st3)).map_err(|e| violation!("c10.load-error", "op#{i}: bootstrap failed on an injected read error and again without any fault: {e:?}"))?
+                    }
+                    Err(e) => return Err(violation!("c10.load-error", "op#{i}: bootstrap failed: {e:?}")),
+                };
                 m = committed.clone();
             }
             _ => {}
